@@ -17,10 +17,11 @@ func init() {
 			"(lattice) checkAssignable answers 'must' only for identical types or when the input implements the interface argument, 'may' only when the input is an interface the argument implements; " +
 			"(validate-before-commit) data edges, branches and nodes are committed only after their type validation, whose failure blocks the commit; " +
 			"(infer-write-once) an inferred pass-through type is written only while the slot is still nil; " +
+			"(infer-helper-direction) a pass-through typed from its predecessor inherits the output-side converters, typed from its successor the input-side ones; " +
 			"(unresolved-gate) compile cannot succeed with unresolved pass-through types; " +
 			"(converter-is-checker) the handler installed on a may-edge/branch is the consumer's input converter, whose failing arm returns an error (comma-ok assertion); " +
 			"(branch-handler-index) the run-time pre-branch handler list is indexed by the position of the branch in the node's branch list.",
-		decided:    []string{"three-way", "lattice", "validate-before-commit", "infer-write-once", "unresolved-gate", "converter-is-checker", "branch-handler-index"},
+		decided:    []string{"three-way", "lattice", "validate-before-commit", "infer-write-once", "infer-helper-direction", "unresolved-gate", "converter-is-checker", "branch-handler-index"},
 		notDecided: []string{"soundness/confluence of pass-through inference over all construction orders", "dynamic values flowing through interface-typed edges", "type checks inside user code"},
 		run:        runC07,
 	})
@@ -336,11 +337,95 @@ func runC07(w *World, r *Report) {
 			nInf++
 			construct := fmt.Sprintf("%s infers %s", w.fname(origin(fn)), fw.field.Name())
 			g := hasGuard(fw.in.Block(), func(g guard) bool { return guardIsNil(g, isTypeQuery) })
+			if !g {
+				// the store may live in a helper: accept when every call site of the helper is guarded
+				cs := w.staticCallers(origin(fn))
+				if len(cs) > 0 {
+					g = true
+					for _, c := range cs {
+						if !hasGuard(c.Block(), func(g guard) bool { return guardIsNil(g, isTypeQuery) }) {
+							g = false
+						}
+					}
+				}
+			}
 			r.Check(g, "C07.infer-write-once", construct, fw.in.Pos(), "guarded by a nil test of the node's current type", "an already inferred (and already used for validation) pass-through type can be replaced: earlier edges were validated against the old type")
 		}
 	}
 	if nInf < 6 {
 		undecidedf("C07.infer-write-once: %d inference stores found (floor 6)", nInf)
+	}
+
+	// ---- infer-helper-direction
+	r.Rule("C07.infer-helper-direction", "a pass-through typed from its predecessor takes the predecessor's OUTPUT-side helper (forSuccessorPassthrough); typed from its successor / branch, the INPUT-side helper (forPredecessorPassthrough)", 3)
+	{
+		fsp := w.Fn("compose", "genericHelper.forSuccessorPassthrough")
+		fpp := w.Fn("compose", "genericHelper.forPredecessorPassthrough")
+		gnot := w.Fn("compose", "graph.getNodeOutputType")
+		gnit := w.Fn("compose", "graph.getNodeInputType")
+		isCallOf := func(v ssa.Value, f *ssa.Function) bool {
+			seen := map[ssa.Value]bool{}
+			var q func(v ssa.Value, d int) bool
+			q = func(v ssa.Value, d int) bool {
+				if d > 6 || seen[v] {
+					return false
+				}
+				seen[v] = true
+				switch x := v.(type) {
+				case *ssa.Call:
+					return isCallTo(x, f)
+				case *ssa.Phi:
+					for _, e := range x.Edges {
+						if q(e, d+1) {
+							return true
+						}
+					}
+				}
+				return false
+			}
+			return q(v, 0)
+		}
+		// collect helper-derivation calls in the inference code (updateToValidateMap, addBranch and their static callees in package compose)
+		scope := map[*ssa.Function]bool{}
+		var walk func(f *ssa.Function, d int)
+		walk = func(f *ssa.Function, d int) {
+			if f == nil || scope[f] || d > 2 || f.Blocks == nil || !w.inRepo(f) || w.relPkg(fnPkg(f).Path()) != "compose" {
+				return
+			}
+			scope[f] = true
+			instrs(f, func(in ssa.Instruction) {
+				if c, ok := in.(ssa.CallInstruction); ok {
+					walk(staticCallee(c), d+1)
+				}
+			})
+		}
+		walk(updTV, 0)
+		nS, nP := 0, 0
+		for f := range scope {
+			if f != updTV {
+				// helpers: the direction cannot be judged inside a helper that serves both arms
+				if len(callsTo(f, fsp))+len(callsTo(f, fpp)) > 0 && f != fsp && f != fpp && f.Name() != "getNodeGenericHelper" {
+					r.Fail("C07.infer-helper-direction", "helper derivation in "+w.fname(f), f.Pos(), "the pass-through helper is derived inside a shared helper function: the predecessor/successor direction is no longer tied to the arm that inferred the type")
+				}
+				continue
+			}
+			for _, c := range callsTo(f, fsp) {
+				nS++
+				// arm: start's output known (non-nil), end's input unknown (nil)
+				gOut := hasGuard(c.Block(), func(g guard) bool { return guardNonNil(g, func(v ssa.Value) bool { return isCallOf(v, gnot) }) })
+				gIn := hasGuard(c.Block(), func(g guard) bool { return guardIsNil(g, func(v ssa.Value) bool { return isCallOf(v, gnit) }) })
+				r.Check(gOut && gIn, "C07.infer-helper-direction", "updateToValidateMap: successor pass-through inherits the predecessor's output side", c.Pos(), "forSuccessorPassthrough under (start output known, end input unknown)", "output-side helper used on the wrong arm")
+			}
+			for _, c := range callsTo(f, fpp) {
+				nP++
+				gOut := hasGuard(c.Block(), func(g guard) bool { return guardIsNil(g, func(v ssa.Value) bool { return isCallOf(v, gnot) }) })
+				r.Check(gOut, "C07.infer-helper-direction", "updateToValidateMap: predecessor pass-through inherits the successor's input side", c.Pos(), "forPredecessorPassthrough under (start output unknown)", "input-side helper used on the wrong arm")
+			}
+		}
+		r.Check(nS >= 1 && nP >= 1, "C07.infer-helper-direction", "updateToValidateMap uses both directions", updTV.Pos(), fmt.Sprintf("%d output-side, %d input-side derivations", nS, nP), "a pass-through typed from its predecessor no longer takes the predecessor's output-side converters: its run-time checker validates against the wrong type (valid values rejected, invalid ones panic downstream)")
+		// addBranch: the pass-through is the branch's predecessor
+		okb := len(callsTo(addBranch, fpp)) == 1 && len(callsTo(addBranch, fsp)) == 0
+		r.Check(okb, "C07.infer-helper-direction", "addBranch: pass-through before a branch inherits the branch's input side", addBranch.Pos(), "forPredecessorPassthrough", "wrong helper direction for a pass-through typed by a branch")
 	}
 
 	// ---- unresolved gate
